@@ -129,6 +129,23 @@ func shapeSkeletons(tier string) []NamedSkel {
 	return list
 }
 
+// lateConfigItems: every core case with one deviating unit again, the schema tree composed first and every node
+// configured (Required, NotNil, Default, Catch, tests, PostTransforms) only afterwards.
+func lateConfigItems(tier string, mk func(a *Alpha, ns NamedSkel, focus []string, elems int) mc.Scenario, alphaMod func(a *Alpha)) []Item {
+	var items []Item
+	for _, it := range coreItems(tier, mk, alphaMod, []int{0, 1}, 1) {
+		inner := it.Run
+		it.Name = "late-config/" + it.Name
+		it.Run = func(x *mc.X) *mc.Outcome {
+			BuildLateMode = true
+			defer func() { BuildLateMode = false }()
+			return inner(x)
+		}
+		items = append(items, it)
+	}
+	return items
+}
+
 func thoroughPrefix(tier string) string {
 	if tier == "thorough" {
 		return "every triple of units over the reduced alphabets (k=3), in addition to: "
@@ -236,7 +253,7 @@ func firstLine(s string) string {
 func init() {
 	Register(&Prop{
 		ID:    "C02",
-		Rule:  "one execution = one (skeleton, mode, ≤k focus units each ranging over its full configuration×input alphabet — tests {t2 | t1,t2 with t2 declared as an edited copy of a reusable z.Test value | none | t1 filed by IssuePath under one path shared by all such nodes, t2} —, field visit order at every struct visit) case; all other units are plain (optional, one passing recording test, valid input); non-trivial = at least one unit deviates from plain; distinct = distinct (skeleton, mode, expected issue multiset). plus " + callsRule,
+		Rule:  "one execution = one (skeleton, mode, ≤k focus units each ranging over its full configuration×input alphabet — tests {t2 | t1,t2 with t2 declared as an edited copy of a reusable z.Test value | none | t1 filed by IssuePath under one path shared by all such nodes, t2} —, field visit order at every struct visit) case; all other units are plain (optional, one passing recording test, valid input); non-trivial = at least one unit deviates from plain; distinct = distinct (skeleton, mode, expected issue multiset). plus every single-unit case again with the schema tree composed first and every node configured only afterwards (late configuration). plus " + callsRule,
 		Floor: 50,
 		Bound: func(tier string) string {
 			k, e := coreK(tier)
@@ -248,6 +265,8 @@ func init() {
 		},
 		Items: func(tier string) []Item {
 			items := coreItems(tier, c02Scenario, func(a *Alpha) { a.PathOpt = true }, []int{0, 1}, 0)
+			// builder calls made after a schema was handed to its parent's constructor mean the same as before it
+			items = append(items, lateConfigItems(tier, c02Scenario, func(a *Alpha) { a.PathOpt = true })...)
 			// the issues a caller holds are exactly the violations, also after later and overlapping executions
 			return append(items, callsItems(tier, "C02", "clean-despite-violation", "depends-on-history", "nested-call-differs", "earlier-result-changed", "schema-modified", "panic")...)
 		},
